@@ -376,6 +376,12 @@ class C01(PropertyCheck):
         "QipVerif.C01.propagators_product_eq_den",
         "QipVerif.C01.den_eq_denG",
         "QipVerif.C01.getGateUnitary_spec",
+        "QipVerif.C01.embL_spec",
+        "QipVerif.C01.compact_product_eq_den",
+        "QipVerif.C01.compact_circuit_eq_den",
+        "QipVerif.C01.sortDedup_spec",
+        "QipVerif.C01.oracles_legal",
+        "QipVerif.C01.C01_counterexample_unsorted_order",
     ]
     technique = ("Lean 4 proof (list combinatorics of the einsum index lists; contraction = embedded operator via the split "
                  "equivalence; induction over the gate list; invariant of the block list of the compact product) + "
